@@ -564,3 +564,8 @@ mod tests {
         assert_eq!(config.batch_size, 4096);
     }
 }
+
+// Verification hook (/verif): contract proof harnesses; compiled only by `cargo kani`.
+#[cfg(kani)]
+#[path = "/verif/kani/memory.rs"]
+mod verif_kani;
